@@ -1,27 +1,90 @@
 package props
 
 import (
+	"fmt"
+
 	"voicheck/erange"
 )
 
-// C04 — field arithmetic exact mod 2^255-19: the clause decided here is "no
+// C04 — field arithmetic exact mod 2^255-19.  The clause decided here is "no
 // intermediate quantity silently wraps a machine word" in the portable
-// 64-bit and the 32-bit field back ends (E-RANGE, DESIGN.md).
+// 64-bit and the 32-bit field back ends (engine E-RANGE, DESIGN.md):
+//
+//	stage A  every limb-level primitive of internal/field under the
+//	         documented input headroom, with derived post-conditions and
+//	         their closure (rules RANGE-A/<class>);
+//	stage B  (thorough) the pre-condition of every primitive at every call
+//	         site in field.go, curve, internal/elligator, primitives/h2c
+//	         (rules RANGE-B/<class>).
+//
+// quick:    configurations purego, f32, stage A.
+// thorough: + f32pure, 386, arm64 and the Go part of amd64 (stage A);
+//
+//	stage B in purego, f32, 386, arm64.
 func init() {
 	Registry["C04"] = func(c *Ctx) {
-		cfgs := []string{"purego", "f32"}
+		run := c.Run
+		stageA := []string{"purego", "f32"}
+		var stageB []string
 		if c.Tier == "thorough" {
-			cfgs = []string{"purego", "f32", "f32pure", "386", "arm64", "amd64"}
+			stageA = []string{"purego", "f32", "f32pure", "386", "arm64", "amd64"}
+			stageB = []string{"purego", "f32", "386", "arm64"}
 		}
-		if !c.Preload(cfgs...) {
+
+		run.Explanation = "Forward abstract interpretation of go/ssa (package voicheck/erange) with big-integer intervals of the mathematical, non-wrapped value of every machine word. " +
+			"Stage A analyses each limb-level function of internal/field (everything declared next to type Element, plus any function touching Element.inner) on its own, " +
+			"every input limb ranging over the documented headroom (64-bit: < 2^54; 32-bit: even limbs <= floor((2^32-1)/19), odd limbs half of that), in every aliasing configuration of its pointer parameters; " +
+			"helpers and closures (reduce, carry, m, load3/4, squareInner, feMulGeneric ...) are inlined up to depth " + fmt.Sprint(erange.DefaultMaxDepth) + ", counted loops are unrolled, the data-dependent Pow2k loop is closed by an inductive (covered-state) argument. " +
+			"Cells of small arrays/structs are tracked individually with strong updates; bits.Mul64 / bits.Add64 pairs are tracked as one 128-bit quantity. " +
+			"An obligation is one arithmetic instruction in one inlining context of one primitive: +,*,<< below 2^w, subtractions non-negative, discarded carries / high words zero, W>>k fits a word, narrowing conversions exact, outputs exact words within the documented reduced bound, closure of pre/post-conditions; a word that may wrap is tolerated only if every consumer is exact modulo 2^w (the modelled idioms, counted in the evidence). " +
+			"Stage B interprets the element-level code in join mode (worklist, widening) from every exported function of the packages that import internal/field; each primitive call raises the pre-condition obligation and is replaced by a memoised stage A analysis on the actual argument bounds; non-local elements are abstracted by one bound per (struct type, field), iterated to a fixpoint. " +
+			"Nothing of the repository is executed."
+		run.Assumptions = append(run.Assumptions,
+			"go/types and go/ssa (golang.org/x/tools v0.29.0) represent the program faithfully; math/bits.Mul64/Add64 and encoding/binary.LittleEndian behave as documented",
+			"internal/subtle.ConstantTimeSelectUint64/32/Byte return one of their two value operands and ConstantTimeSwapUint64/32 leave each cell holding one of the two original values (their bodies are summarised, not analysed, here)",
+			"package-level variables are not written after package initialisation (their initial contents are obtained by abstractly interpreting the package initialiser; stores to globals are the subject of C18)",
+			"no use of package unsafe or reflection reaches the limbs in the analysed configurations (UnsafeInner is only called by the amd64 vector code; a reachable call leaves stage B undecided)",
+			"stage A pre-conditions are the documented ones: 64-bit limbs < 2^54 (field_u64.go: \"limbs < 2^(51+b) ... we require b < 3\"), 32-bit even/odd limbs <= 226050910/113025455 (field_u32.go: \"19*y fits in a u32 iff b < 1.752\"); k >= 1 for fePow2kGeneric (\"given k > 0\")",
+			"stage B is closed-world: internal/field can only be imported inside the module and every importing package is analysed; exported functions are entered with any aliasing of up to three same-typed pointer parameters (more: none or all); elements reachable from their parameters satisfy the inferred per-(type,field) bounds, which every exported function is shown to re-establish",
+		)
+		run.NotDecided = append(run.NotDecided,
+			"functional exactness of multiplication, squaring, inversion and square roots (which partial product goes to which limb, that carries are added to the right limb with the right weight): only ranges are decided",
+			"the amd64 assembly (feMul, fePow2k) and the AVX2 vector code: no range model of assembly; in the amd64 configuration Mul, Square, Square2 and Pow2k are reported as not decided and stage B is not run",
+			"that reduce/ToBytes canonicalise correctly (h < 2p after one weak reduction), that the bias constants of Sub/Neg are a multiple of p (E-CONST), limb uniformity of the limb-wise operations (E-SIB)",
+			"curve/scalar: the 64-bit back end is analysed by erange.CheckScalar64 under property C05; the 32-bit scalar back end wraps on purpose (Karatsuba) and is out of reach of intervals",
+		)
+
+		all := append([]string(nil), stageA...)
+		if !c.Preload(all...) {
 			return
 		}
-		for _, id := range cfgs {
+		erange.DeclareFieldRules(run, "RANGE-A", stageA)
+		if len(stageB) > 0 {
+			erange.DeclareStageBRules(run, "RANGE-B", stageB)
+		}
+		inB := map[string]bool{}
+		for _, id := range stageB {
+			inB[id] = true
+		}
+		for _, id := range stageA {
 			p := c.Prog(id)
 			if p == nil {
 				continue
 			}
-			erange.CheckFieldStageA(c.Run, p, "RANGE-A")
+			erange.CheckFieldStageA(run, p, "RANGE-A")
+			if inB[id] {
+				erange.CheckFieldStageB(run, p, "RANGE-B")
+			}
+			c.Drop(id) // one configuration at a time keeps the footprint small
+		}
+		if len(stageB) == 0 {
+			run.NotDecided = append(run.NotDecided, "stage B (pre-conditions at the call sites of field.go, curve, internal/elligator, primitives/h2c) runs in the thorough tier only")
+		}
+		run.Extra["bounds"] = map[string]any{
+			"inlining_depth_stage_A": erange.DefaultMaxDepth,
+			"inlining_depth_stage_B": erange.StageBDepth,
+			"loop_unroll_limit":      erange.DefaultUnrollLimit,
+			"path_limit_per_entry":   erange.DefaultMaxPaths,
 		}
 	}
 }
